@@ -72,6 +72,7 @@ class _BaseITML(MahalanobisMixin):
     pos_vv = pos_pairs[:, 0, :] - pos_pairs[:, 1, :]
     neg_vv = neg_pairs[:, 0, :] - neg_pairs[:, 1, :]
 
+    it, conv = 0, np.inf  # (what is reported when max_iter == 0)
     for it in range(self.max_iter):
       # update positives
       for i, v in enumerate(pos_vv):
